@@ -448,6 +448,20 @@ func (r *runner) reconfigCase(e TypeEntry, seqMasks []int) {
 			rr.Close()
 			return
 		}
+		// every session's shutdown notification reaches the handler, once
+		rec.Take()
+		sctx, scancel := context.WithTimeout(context.Background(), 10*time.Second)
+		_, serr := rr.Plugin.Shutdown(sctx, &api.Empty{})
+		scancel()
+		n := 0
+		for _, c := range rec.Take() {
+			if c.Handler == "Shutdown" {
+				n++
+			}
+		}
+		if serr != nil || n != 1 {
+			viol("dispatch/Shutdown", fmt.Sprintf("session %d of the same stub: the shutdown request returned %v and the Shutdown handler ran %d times (want 1)", i, serr, n))
+		}
 		st.Stop()
 		rr.Close()
 	}
